@@ -12,6 +12,9 @@ Transcribed source (pinned tree):
           if hasattr(listener, attr): producer.state_was_updated(); return getattr(listener, attr)
       else: producer.state_was_updated()
       return <noop>
+* pyatv/support/state_producer.py:59-71 `StateProducer.listener` getter/setter → `St.listener`, `Ev.setListener`
+      (the setter stores `weakref.ref(target)` or None and nothing else: the call budget belongs to the
+       producer — the device object — not to a listener object)
 * pyatv/core/facade.py:652 `super().__init__(max_calls=1)`                → `Cfg.maxCalls` (value from Gen)
 * pyatv/core/facade.py:880-886 `state_was_updated → self.close()`         → continuation `k` of `reportWith`
 * pyatv/core/facade.py:744-764 `FacadeAppleTV.close` (as repaired by
@@ -97,7 +100,7 @@ structure Cfg where
   nObjs : Nat               -- shielded objects: 0 = FacadeAppleTV, 1.. = interface objects
   pushObj : Nat             -- index of the FacadePushUpdater
   members : List Row        -- public member table
-  listener : Listener
+  listener : Listener       -- the DeviceListener registered before the history starts
   protos : List Proto
 
 /-- `__shield_is_blocking` of one object: attribute missing / False / True -/
@@ -129,6 +132,8 @@ structure St where
   inner : List (Bool × InEv × Out)  -- calls made from inside callbacks (flag: DeviceListener callback) and what they saw
   raised : Bool               -- an error of the library's own escaped from `close()` (or the model ran out of fuel)
   flying : Bool               -- an exception raised by user code is propagating
+  listener : Listener         -- what `StateProducer.__listener` of the device object refers to now
+  pushListener : Bool         -- the user's PushListener is registered on the FacadePushUpdater
   deviceHeld : Bool           -- the user still holds the device object (object 0) itself; the interface
                               -- objects obtained from it earlier stay in the user's hands regardless
   deriving Repr
@@ -138,7 +143,7 @@ def init (cfg : Cfg) : St :=
   { callsMade := 0, pending := none, tasks := 0, nextId := 0, closeLog := [],
     shield := List.replicate cfg.nObjs (some false), pushOn := false,
     notified := [], reports := [], inner := [], raised := false, flying := false,
-    deviceHeld := true }
+    listener := cfg.listener, pushListener := true, deviceHeld := true }
 
 /-- `shield.is_blocking(obj)` -/
 def isBlocking (s : St) (o : Nat) : Bool := s.shield[o]? == some (some true)
@@ -200,7 +205,7 @@ def handler (cfg : Cfg) (k : St → St) (s : St) (r : Report) (b : Beh) : St :=
 def reportWith (cfg : Cfg) (k : St → St) (s : St) (r : Report) (b : Beh) : St :=
   let s := { s with reports := s.reports ++ [r], callsMade := s.callsMade + 1 }
   if cfg.maxCalls ≠ 0 ∧ s.callsMade > cfg.maxCalls then s
-  else match cfg.listener with
+  else match s.listener with
     | .none => k s
     | .alive => let s := k s; if s.flying then s else handler cfg k s r b
     | .dead => s
@@ -244,6 +249,10 @@ inductive Ev
   | pushStart                     -- push_updater.start() on the held FacadePushUpdater
   | pushStop                      -- push_updater.stop()
   | push (i : Nat) (b : Beh)      -- protocol i's push updater posts an update; b = the PushListener handler
+  | setListener (some : Bool)     -- the application assigns `atv.listener` again: an object (the same one or a
+                                  -- new one) or None — pyatv/support/state_producer.py:66-71, the setter only
+                                  -- replaces the weak reference, `calls_made` is untouched
+  | setPushListener (some : Bool) -- … or `push_updater.listener`
   | dropDevice                    -- the user drops every reference to the device object (`self.atv = None`,
                                   -- the object may be garbage-collected) and keeps only the interface objects
                                   -- (`rc = atv.remote_control`, …) it obtained before
@@ -263,13 +272,16 @@ def step (cfg : Cfg) (s : St) : Ev → St × Out
     | some row => if !s.deviceHeld && row.obj == 0 then (s, .gone) else (s, apiOut cfg s m)
     | none => (s, .badMember)
   | .dropDevice => ({ s with deviceHeld := false }, .none)
+  | .setListener b => ({ s with listener := if b then .alive else .none }, .none)
+  | .setPushListener b => ({ s with pushListener := b }, .none)
   | .pushStart =>
     if isBlocking s cfg.pushObj then (s, .blocked) else ({ s with pushOn := true }, .pass)
   | .pushStop =>
     if isBlocking s cfg.pushObj then (s, .blocked) else ({ s with pushOn := false }, .pass)
   | .push i b =>
     -- an exception of the PushListener handler ends in the event loop's exception handler
-    if s.pushOn && i == 0 then (runInner cfg (closeF cfg topFuel) false s b.inner, .delivered true)
+    if s.pushOn && i == 0 && s.pushListener then
+      (runInner cfg (closeF cfg topFuel) false s b.inner, .delivered true)
     else (s, .delivered false)
 
 def run (cfg : Cfg) (s : St) : List Ev → St
